@@ -137,6 +137,11 @@ var tagDefs = []tagDef{
 	{"mark/m", "id:4,9", nil},
 	{"service/s", "sport:80", []uint{0, 10}},
 	{"generated/g", "id:6", nil},
+	// three decided tags that overlap with each other and with the pending ones and sort before them
+	// (the engine orders the tag filters of a conjunct by name)
+	{"generated/h", "id:1,2,4,5,7,10", nil},
+	{"mark/k", "id:0,1,2,4,5,7,9,10", nil},
+	{"service/r", "cbytes:1:", nil},
 }
 
 var convOutput = ref.FakeConverter{
@@ -382,6 +387,61 @@ func buildQueries(tier string) ([]qcase, map[string]int) {
 			counts[f.name]++
 		})
 	}
+	// conjunctions of 3-5 atoms around tags with pending streams: the engine inlines the definition of an
+	// undecided tag into the conjunct it stands in, at every position of conjuncts of every length
+	{
+		byText := map[string]*ref.Atom{}
+		for _, a := range plain {
+			byText[a.Text] = a.Atom
+		}
+		var pool []*ref.Node
+		for _, t := range []string{"tag:a", "service:s", "tag:b", "mark:m", "cport:80", "id:2:"} {
+			if byText[t] == nil {
+				mc.Fatal("atom %q missing", t)
+			}
+			pool = append(pool, ref.A(byText[t]))
+		}
+		for _, t := range [][2]string{{"generated:h", "generated/h"}, {"mark:k", "mark/k"}, {"service:r", "service/r"}} {
+			name := t[1]
+			pool = append(pool, ref.A(&ref.Atom{Text: t[0], Eval: func(r *ref.Rec) bool { return r.Tags[name] == ref.TagMatching }}))
+		}
+		pool = append(pool, ref.Not(ref.A(byText["tag:a"])), ref.Not(ref.A(byText["service:s"])))
+		maxLen := 4
+		if tier == "thorough" {
+			maxLen = 5
+		}
+		// the engine orders the conditions of a conjunct itself: subsets, each written in ascending and in
+		// descending pool order
+		var rec func(cur []int, from int)
+		rec = func(cur []int, from int) {
+			if len(cur) >= 3 {
+				for _, rev := range []bool{false, true} {
+					kids := make([]*ref.Node, len(cur))
+					for i, c := range cur {
+						if rev {
+							kids[len(cur)-1-i] = pool[c]
+						} else {
+							kids[i] = pool[c]
+						}
+					}
+					n := ref.And(kids...)
+					t := n.Text()
+					if !seen[t] {
+						seen[t] = true
+						out = append(out, qcase{n, t})
+						counts["conjunctions of 3-"+fmt.Sprint(maxLen)+" atoms around tags with pending streams"]++
+					}
+				}
+			}
+			if len(cur) == maxLen {
+				return
+			}
+			for i := from; i < len(pool); i++ {
+				rec(append(append([]int{}, cur...), i), i+1)
+			}
+		}
+		rec(nil, 0)
+	}
 	return out, counts
 }
 
@@ -423,6 +483,17 @@ func Run(tier string) int {
 		}
 	}()
 	queries, famCounts := buildQueries(tier)
+	if only := os.Getenv("VERIF_C02_ONLY_TEXT"); only != "" {
+		// development aid: queries whose text contains the value
+		var f []qcase
+		for _, q := range queries {
+			if strings.Contains(q.text, only) {
+				f = append(f, q)
+			}
+		}
+		queries = f
+		rep.Coverage["development_filter"] = only
+	}
 	sorts := sortSpecs(tier)
 	// the service passes skip = page*limit
 	pages := []pageSpec{{0, 0}, {1, 0}, {2, 0}, {3, 0}, {100, 0}, {1, 1}, {1, 2}, {2, 2}, {2, 4}, {3, 3}, {3, 6}, {100, 100}}
